@@ -5,7 +5,6 @@ CONSTANTS
   Quit = 4
   Stay = FALSE
   WaitsForPager = TRUE
-  RetriesShort = TRUE
-INVARIANTS NoEarlyExit AllDelivered NothingInvented LogOrder Emit
-PROPERTY Terminates
+  RetriesShort = FALSE
+INVARIANTS AllDelivered
 CHECK_DEADLOCK FALSE
